@@ -3,7 +3,7 @@
    exactly the mappings [spec_decode] assigns to that string (those with an
    original position; the parser ignores one-field segments), in the order
    needSort leaves them. *)
-From V Require Import Common.Base C07.Vlq C07.VlqProofs C07.SpecMap C07.Mappings C07.MappingsProofs C07.JoinProofs.
+From V Require Import Common.Base C07.Vlq C07.VlqProofs C07.SpecMap C07.Mappings C07.MappingsProofs C07.JoinProofs C07.Shift C07.ShiftAux.
 From V Require Import C16.Checked C16.Vlq16 C16.Vlq16Proofs.
 From V Require Import C07.ParseMap C07.ParseMapProofs.
 
@@ -370,3 +370,222 @@ Section Step.
       apply Htail. exact R4.
   Qed.
 End Step.
+
+Section Step2.
+  Variables sl nl : Z.
+  Variable raw : list Z.
+
+  Lemma step_nl f st pre rest acc ns :
+    - 2 ^ 30 < gl st < 2 ^ 30 -> raw = pre ++ 59 :: rest ->
+    mloop_ns raw 0 0 0 0 sl nl (S f) st (len pre) acc ns =
+    mloop_ns raw 0 0 0 0 sl nl f (mkM (gl st + 1) 0 (si st) (ol st) (oc st) (on st)) (len (pre ++ [59])) acc ns.
+  Proof.
+    intros Hg HR. rewrite mloop_ns_S.
+    rewrite (lt_at' _ _ _ _ HR). cbn [negb]. rewrite (idx_at' _ _ _ _ HR). cbn [bind Z.eqb Pos.eqb].
+    rewrite wrap_i32_id by lia. rewrite len_app. reflexivity.
+  Qed.
+
+  Lemma step_null f st pre gcn C R acc ns :
+    in30 (gc st) -> in30 gcn -> tail_ok16 C R ->
+    raw = pre ++ encodeVLQ (gcn - gc st) ++ C ++ R ->
+    mloop_ns raw 0 0 0 0 sl nl (S (S f)) st (len pre) acc ns =
+    mloop_ns raw 0 0 0 0 sl nl (S f) (mkM (gl st) gcn (si st) (ol st) (oc st) (on st))
+             (len (pre ++ encodeVLQ (gcn - gc st) ++ C)) acc (ns || (gcn - gc st <? 0)).
+  Proof.
+    unfold in30. intros G1 N1 HT HR.
+    set (E1 := encodeVLQ (gcn - gc st)) in *.
+    rewrite mloop_ns_S.
+    destruct (enc_cons (gcn - gc st)) as (c1 & t1 & Ec1 & Hc1 & Hc1').
+    assert (R0 : raw = pre ++ c1 :: (t1 ++ C ++ R)) by (rewrite HR; fold E1 in Ec1; rewrite Ec1; reflexivity).
+    rewrite (lt_at' _ _ _ _ R0). cbn [negb]. rewrite (idx_at' _ _ _ _ R0). cbn [bind].
+    replace (c1 =? 59) with false by lia.
+    rewrite (from_at' raw pre _ HR). cbn [bind].
+    unfold E1 at 1. rewrite decode16_encode by lia. cbn [bind negb]. cbv zeta.
+    replace (wrap_i32 (gc st + (gcn - gc st))) with gcn by (rewrite wrap_i32_id; lia).
+    replace (((gl st =? 0) && (gcn <? 0)) || (gcn <? 0)) with false by lia.
+    fold E1.
+    replace (len pre + len E1) with (len (pre ++ E1)) by (rewrite len_app; reflexivity).
+    assert (R1 : raw = (pre ++ E1) ++ C ++ R) by (rewrite HR, <- !app_assoc; reflexivity).
+    rewrite app_assoc.
+    destruct HT as [->|[-> [->|[t ->]]]].
+    - rewrite (eq_at' _ _ _ _ R1), (idx_at' _ _ _ _ R1). cbn [bind Z.eqb Pos.eqb].
+      rewrite (len_app (pre ++ E1)). reflexivity.
+    - cbn [app] in R1. rewrite app_nil_r in R1. rewrite app_nil_r.
+      replace (len (pre ++ E1) =? len raw) with true by (rewrite <- R1; lia).
+      rewrite mloop_ns_S. replace (len (pre ++ E1) <? len raw) with false by (rewrite <- R1; lia). reflexivity.
+    - cbn [app] in R1. rewrite (eq_at' _ _ _ _ R1), (idx_at' _ _ _ _ R1). cbn [bind Z.eqb Pos.eqb].
+      rewrite app_nil_r. reflexivity.
+  Qed.
+End Step2.
+
+(* ---------------- the whole string ---------------- *)
+
+(* the mappings the parser keeps: those with an original position *)
+Fixpoint pmaps (ops : list op) (line : Z) : list Vlq16.mapping :=
+  match ops with
+  | [] => []
+  | ONewline :: r => pmaps r (line + 1)
+  | OMap gc si ol oc nm :: r => (line, gc, si, ol, oc, match nm with Some n => n | None => -1 end) :: pmaps r line
+  | ONull _ :: r => pmaps r line
+  end.
+
+(* needSort: some generated column goes backwards within a line *)
+Fixpoint negd (ops : list op) (c : Z) : bool :=
+  match ops with
+  | [] => false
+  | ONewline :: r => negd r 0
+  | OMap gc _ _ _ _ :: r => (gc - c <? 0) || negd r gc
+  | ONull gc :: r => (gc - c <? 0) || negd r gc
+  end.
+
+(* every value of the events fits the parser's int32 arithmetic and indexes inside sources / names *)
+Fixpoint ops_in30 (sl nl : Z) (ops : list op) : Prop :=
+  match ops with
+  | [] => True
+  | ONewline :: r => ops_in30 sl nl r
+  | OMap gc si ol oc nm :: r =>
+    in30 gc /\ 0 <= si < sl /\ in30 ol /\ in30 oc /\
+    match nm with Some n => 0 <= n < nl | None => True end /\ ops_in30 sl nl r
+  | ONull gc :: r => in30 gc /\ ops_in30 sl nl r
+  end.
+
+Fixpoint nlines16 (ops : list op) : Z :=
+  match ops with [] => 0 | ONewline :: r => 1 + nlines16 r | _ :: r => nlines16 r end.
+
+Lemma nlines16_nonneg ops : 0 <= nlines16 ops.
+Proof. induction ops as [|[| |] r IH]; cbn [nlines16]; lia. Qed.
+
+Definition st_of (p : state) : mstate := mkM (gline p) (gcol p) (sidx p) (oline p) (ocol p) (oname p).
+
+Definition p_in30 (p : state) : Prop :=
+  in30 (gcol p) /\ in30 (sidx p) /\ in30 (oline p) /\ in30 (ocol p) /\ in30 (oname p).
+
+Lemma mloop_emit sl nl raw : in30 sl -> in30 nl ->
+  forall ops F pre p acc ns,
+  raw = pre ++ ebytes ops 0 p -> ops_in30 sl nl ops -> p_in30 p ->
+  - 2 ^ 30 < gline p -> gline p + nlines16 ops < 2 ^ 30 ->
+  (length ops < F)%nat ->
+  exists st', mloop_ns raw 0 0 0 0 sl nl F (st_of p) (len pre) acc ns =
+              Ok (NDone st' (rev (pmaps ops (gline p)) ++ acc) (ns || negd ops (gcol p))).
+Proof.
+  intros Hsl Hnl. induction ops as [|o ops IH]; intros F pre p acc ns HR Hin Hp Hg1 Hg2 HF.
+  - destruct F as [|f]; [cbn in HF; lia|]. cbn [ebytes pmaps rev app negb negd] in *.
+    rewrite ebytes_nil, app_nil_r in HR. rewrite mloop_ns_S.
+    replace (len pre <? len raw) with false by (rewrite HR; lia). cbn [negb].
+    rewrite orb_false_r. eexists. reflexivity.
+  - destruct F as [|[|f]]; [cbn in HF; lia|cbn in HF; lia|]. cbn [length] in HF.
+    destruct Hp as (P1 & P2 & P3 & P4 & P5).
+    pose proof (nlines16_nonneg ops) as Hnn.
+    destruct o as [|gx sx lx cx nm|gx]; cbn [ops_in30 nlines16 pmaps negd] in *.
+    + (* line break *)
+      rewrite ebytes_newline0 in HR.
+      pose proof (nlines16_nonneg ops).
+      rewrite (step_nl sl nl raw (S f) (st_of p) pre (ebytes ops 0 (nl_state p)) acc ns); [|cbn [st_of gl]; lia|exact HR].
+      destruct (IH (S f) (pre ++ [59]) (nl_state p) acc ns) as (st' & E); try lia.
+      * rewrite HR, <- app_assoc. reflexivity.
+      * exact Hin.
+      * unfold p_in30, nl_state, in30 in *. cbn. repeat split; try lia.
+      * unfold nl_state. cbn [gline]. lia.
+      * unfold nl_state. cbn [gline]. lia.
+      * exists st'. unfold st_of, nl_state in E. cbn [gline gcol sidx oline ocol oname] in E.
+        cbn [st_of gl gc si ol oc on]. rewrite E. reflexivity.
+    + (* mapping with an original position *)
+      destruct Hin as (I1 & I2 & I3 & I4 & I5 & Hin).
+      rewrite (ebytes_map0 gx sx lx cx nm ops 0 p sepb_0) in HR.
+      pose proof (tail_ok_ops ops (after p gx sx lx cx nm)) as HT.
+      rewrite (step_map sl nl Hsl Hnl raw (S f) (st_of p) pre gx sx lx cx nm (commaof ops)
+                        (ebytes ops 0 (after p gx sx lx cx nm)) acc ns); cbn [st_of gl gc si ol oc on]; try assumption; try lia;
+        try (rewrite HR; unfold fields; rewrite <- !app_assoc; reflexivity).
+      match goal with |- context [mloop_ns raw 0 0 0 0 sl nl (S f) ?ST (len ?PRE) ?ACC ?NS] =>
+        destruct (IH (S f) PRE (after p gx sx lx cx nm) ACC NS) as (st' & E) end; try lia.
+      * rewrite HR. unfold fields. rewrite <- !app_assoc. reflexivity.
+      * exact Hin.
+      * unfold p_in30, after, in30 in *. cbn. destruct nm; repeat split; lia.
+      * unfold after. cbn [gline]. lia.
+      * unfold after. cbn [gline]. lia.
+      * exists st'. unfold st_of, after in E. cbn [gline gcol sidx oline ocol oname] in E.
+        rewrite E. cbn [rev]. rewrite <- app_assoc. cbn [app]. rewrite orb_assoc. reflexivity.
+    + (* mapping without original position *)
+      destruct Hin as (I1 & Hin).
+      rewrite (ebytes_null0 gx ops 0 p sepb_0) in HR.
+      pose proof (tail_ok_ops ops (null_state p gx)) as HT.
+      rewrite (step_null sl nl raw f (st_of p) pre gx (commaof ops) (ebytes ops 0 (null_state p gx)) acc ns);
+        cbn [st_of gl gc si ol oc on]; try assumption.
+      destruct (IH (S f) (pre ++ encodeVLQ (gx - gcol p) ++ commaof ops) (null_state p gx) acc (ns || (gx - gcol p <? 0))) as (st' & E).
+      { rewrite HR, <- !app_assoc. reflexivity. }
+      { exact Hin. }
+      { unfold p_in30, null_state, in30 in *. cbn. repeat split; lia. }
+      { unfold null_state. cbn [gline]. lia. }
+      { unfold null_state. cbn [gline]. lia. }
+      { lia. }
+      exists st'. unfold st_of, null_state in E. cbn [gline gcol sidx oline ocol oname] in E.
+      rewrite E. rewrite orb_assoc. reflexivity.
+Qed.
+
+Lemma ebytes_len_ge : forall ops lb p, (length ops <= length (ebytes ops lb p))%nat.
+Proof.
+  induction ops as [|[|gc si ol oc nm|gc] r IH]; intros lb p; [cbn; lia| | |].
+  - rewrite ebytes_newline. cbn [length]. specialize (IH SEMI (nl_state p)). lia.
+  - destruct (ebytes_map_gen gc si ol oc nm r lb p) as (lb' & _ & ->).
+    rewrite !app_length. pose proof (encodeVLQ_nonempty (gc - gcol p)).
+    destruct (encodeVLQ (gc - gcol p)); [congruence|]. cbn [length].
+    specialize (IH lb' (after p gc si ol oc nm)). lia.
+  - rewrite ebytes_null, null_seg_eq, !app_length. pose proof (encodeVLQ_nonempty (gc - gcol p)).
+    destruct (encodeVLQ (gc - gcol p)); [congruence|]. cbn [length].
+    match goal with |- context [ebytes r ?a ?b] => specialize (IH a b) end. lia.
+Qed.
+
+Lemma pmaps_sl sl nl : forall ops line, pmaps ops line <> [] -> ops_in30 sl nl ops -> 0 < sl.
+Proof.
+  induction ops as [|[|gc si ol oc nm|gc] r IH]; intros line Hne Hin; cbn [pmaps ops_in30] in *.
+  - congruence.
+  - eapply IH; eassumption.
+  - lia.
+  - destruct Hin as [_ Hin]. eapply IH; eassumption.
+Qed.
+
+(* the same list, read off the specification's decoding *)
+Definition abs6 (a : abs) : list Vlq16.mapping :=
+  match a_src a with
+  | Some (s, l, c) => [(a_gline a, a_gcol a, s, l, c, match a_name a with Some n => n | None => -1 end)]
+  | None => []
+  end.
+
+Lemma pmaps_abs : forall ops line, pmaps ops line = flat_map abs6 (abs_of ops line).
+Proof.
+  induction ops as [|[|gc si ol oc nm|gc] r IH]; intro line; cbn [pmaps abs_of flat_map]; [reflexivity|apply IH| |].
+  - unfold abs6 at 1. cbn [a_src a_gline a_gcol a_name app]. rewrite IH. reflexivity.
+  - unfold abs6 at 1. cbn [a_src app]. apply IH.
+Qed.
+
+(* ParseSourceMap reads back what the emitter writes *)
+Theorem parse_emit_all : forall sl nl ops,
+  in30 sl -> in30 nl -> ops_in30 sl nl ops -> nlines16 ops < 2 ^ 30 -> pmaps ops 0 <> [] ->
+  spec_decode (emit_bytes ops) = Some (abs_of ops 0) /\
+  ParseMappingsOrdered [(0, 0, sl, nl, emit_bytes ops)] =
+    Ok (QMap sl nl (let l := flat_map abs6 (abs_of ops 0) in if negd ops 0 then sort_pos l else l) (negd ops 0)).
+Proof.
+  intros sl nl ops Hsl Hnl Hin Hnl16 Hne. split; [apply mappings_roundtrip_all|].
+  rewrite <- pmaps_abs. cbv zeta.
+  pose proof (pmaps_sl sl nl ops 0 Hne Hin) as Hslpos.
+  assert (Hops : ops <> []) by (intro E; subst ops; apply Hne; reflexivity).
+  set (raw := emit_bytes ops).
+  assert (Hlen : (length ops <= length raw)%nat) by (subst raw; unfold emit_bytes; apply (ebytes_len_ge ops 0 state0)).
+  assert (Hraw0 : (len raw =? 0) = false).
+  { unfold len. destruct ops; [congruence|]. cbn [length] in Hlen. lia. }
+  unfold ParseMappingsOrdered. cbn [psections_ns].
+  rewrite Hraw0. replace (sl =? 0) with false by lia. cbn [orb].
+  change (wrap_i32 0) with 0.
+  destruct (mloop_emit sl nl raw Hsl Hnl ops (S (length raw)) [] state0 [] false) as (st' & E); try (cbn; lia).
+  - reflexivity.
+  - exact Hin.
+  - unfold p_in30, in30. cbn. lia.
+  - change (st_of state0) with (mkM 0 0 0 0 0 0) in E. change (len []) with 0 in E.
+    cbn [Z.ltb Z.eqb Z.compare orb andb].
+    rewrite E. cbn [bind psections_ns gcol state0 gline orb].
+    rewrite app_nil_r, rev_involutive.
+    replace (0 + sl =? 0) with false by lia. cbn [orb].
+    destruct (rev (pmaps ops 0)) eqn:Er.
+    { exfalso. apply Hne. rewrite <- (rev_involutive (pmaps ops 0)), Er. reflexivity. }
+    rewrite !Z.add_0_l. reflexivity.
+Qed.
